@@ -479,6 +479,26 @@ impl Drop for Callback {
         CALLBACK.with(|c| c.set(self.0));
     }
 }
+thread_local! {
+    static GIFTS: std::cell::Cell<bool> = const { std::cell::Cell::new(false) };
+}
+/// RAII: the harness hands heap-owning values (std Strings) to the code under test, which drops them:
+/// frees of memory that is not a chunk are forwarded to the system allocator instead of being faults.
+pub struct Gifts(bool);
+impl Gifts {
+    pub fn enter() -> Gifts {
+        GIFTS.with(|c| {
+            let old = c.get();
+            c.set(true);
+            Gifts(old)
+        })
+    }
+}
+impl Drop for Gifts {
+    fn drop(&mut self) {
+        GIFTS.with(|c| c.set(self.0));
+    }
+}
 /// RAII: a callback calls back into the arena: requests are chunk requests again.
 pub struct Reenter(u32);
 impl Reenter {
@@ -559,6 +579,9 @@ unsafe impl GlobalAlloc for Env {
                 (*e).chunk_free(ptr as usize, layout);
             }
             return;
+        }
+        if GIFTS.with(|c| c.get()) {
+            return System.dealloc(ptr, layout);
         }
         if let Some(e) = classify_chunk() {
             let _g = InEnv::enter();
